@@ -162,6 +162,8 @@ def make_exception(name):
         'PydlutilsException': lambda: PydlutilsException('injected'),
         'Pydlspec2dException': lambda: Pydlspec2dException('injected'),
         'PhotoopException': lambda: PhotoopException('injected'),
+        # not an Exception subclass: used for observations only, never for verdicts
+        'SystemExit': lambda: SystemExit('injected'),
     }
     return table[name]()
 
@@ -385,6 +387,11 @@ def run_monitored(fn, touched, fault=None, keep_events=True):
         fn()
     except Exception as e:      # the property speaks of errors raised by stages
         m.active = False
+        outcome = ('raised', e)
+    except SystemExit as e:     # only ever injected by the harness itself (observation runs)
+        m.active = False
+        if 'injected' not in str(e):
+            raise
         outcome = ('raised', e)
     finally:
         m.active = False
